@@ -57,6 +57,11 @@ const TARGETS: &[Target] = &[
     Target { name: "ubl_is_forward_only", file: "src/bounds/userboundslist.rs", impl_trait: None, impl_self: Some("UserBoundsList"),
              func: "is_forward_only", calls: &[("is_sortable", "gen_ubl_is_sortable"), ("is_sorted", "gen_ubl_is_sorted"), ("has_negative_indices", "gen_ubl_has_negative_indices")],
              deps: &["ubl_is_sortable", "ubl_is_sorted", "ubl_has_negative_indices"], imports: "" },
+    Target { name: "side_from_str", file: "src/bounds/side.rs", impl_trait: Some("FromStr"), impl_self: Some("Side"),
+             func: "from_str", calls: &[], deps: &[], imports: "Model.BoundsParse Tie.RsStr" },
+    Target { name: "ub_from_str", file: "src/bounds/userbounds.rs", impl_trait: Some("FromStr"), impl_self: Some("UserBounds"),
+             func: "from_str", calls: &[("Side::from_str", "gen_side_from_str"), ("UserBounds::new", "gen_ub_new")], deps: &["side_from_str", "ub_new"],
+             imports: "Model.BoundsParse Tie.RsStr" },
     Target { name: "fast_try_from", file: "src/fast_lane.rs", impl_trait: Some("TryFrom"), impl_self: Some("FastOpt"),
              func: "try_from", calls: &[], deps: &[], imports: "Model.Scan Model.Regex Model.Opt Tie.RsOpt" },
     Target { name: "stream_try_from", file: "src/stream.rs", impl_trait: Some("TryFrom"), impl_self: Some("StreamOpt"),
@@ -64,7 +69,7 @@ const TARGETS: &[Target] = &[
 ];
 
 #[derive(Clone, PartialEq, Debug)]
-enum Ty { I32, Usize, Bool, Side, UB, Range, Opt(Box<Ty>), List(Box<Ty>), OptRec, BType, Bytes, Other }
+enum Ty { I32, Usize, Bool, Side, UB, Range, Opt(Box<Ty>), List(Box<Ty>), OptRec, BType, Bytes, Str, Pair(Box<Ty>, Box<Ty>), Other }
 
 type R<T> = std::result::Result<T, String>;
 
@@ -79,6 +84,7 @@ struct Cx {
     /// what follows an assignment sees the new value (names are never shadowed in such functions)
     inline_k: bool,
     muts: Vec<String>,
+    rebind_ok: bool,
     /// what `return e` means here: the function's result, a loop's `Break`, a closure's value
     retk_stack: Vec<String>,
 }
@@ -181,6 +187,7 @@ fn ty_of_type(t: &Type) -> (String, Ty) {
                 "UserBoundsList" => ("ublist".into(), Ty::Other),
                 "Opt" => ("opt".into(), Ty::OptRec),
                 "u8" => ("byte".into(), Ty::Other),
+                "str" | "String" => ("bytes".into(), Ty::Str),
                 "BoundOrFiller" => ("bof".into(), Ty::Other),
                 "Range" => ("(Z * Z)%type".into(), Ty::Range),
                 "Option" | "Result" => { let (c, t) = arg0(); (format!("(option {})", c), Ty::Opt(Box::new(t))) }
@@ -218,7 +225,8 @@ impl Cx {
     // ---------------------------------------------------------------- types (a light inference)
     fn ty(&self, e: &Expr) -> Ty {
         match e {
-            Expr::Lit(l) => match &l.lit { Lit::Bool(_) => Ty::Bool, Lit::Int(i) => match i.suffix() { "usize" => Ty::Usize, _ => Ty::I32 }, _ => Ty::Other },
+            Expr::Lit(l) => match &l.lit { Lit::Bool(_) => Ty::Bool, Lit::Int(i) => match i.suffix() { "usize" => Ty::Usize, _ => Ty::I32 }, Lit::Str(_) => Ty::Str, _ => Ty::Other },
+            Expr::Index(ix) if matches!(&*ix.index, Expr::Range(_)) => self.ty(&ix.expr),
             Expr::Path(p) if path_str(&p.path).starts_with("BoundsType::") => Ty::BType,
             Expr::Path(p) => { let s = path_str(&p.path); self.lookup(&s).unwrap_or(if unit_ctor(&s).map_or(false, |c| c == "true" || c == "false") { Ty::Bool } else { Ty::Other }) }
             Expr::Paren(p) => self.ty(&p.expr),
@@ -231,6 +239,11 @@ impl Cx {
                 "is_positive" | "is_negative" | "is_some" | "is_none" => Ty::Bool,
                 "clone" | "into_iter" | "iter" | "as_bytes" | "as_ref" | "to_owned" | "as_deref" => self.ty(&m.receiver),
                 "len" => Ty::Usize,
+                "split_once" => Ty::Opt(Box::new(Ty::Pair(Box::new(Ty::Str), Box::new(Ty::Str)))),
+                "find" => Ty::Opt(Box::new(Ty::Usize)),
+                "is_empty" => Ty::Bool,
+                "into" | "or_else" => self.ty(&m.receiver),
+                "parse" => Ty::Opt(Box::new(Ty::I32)),
                 "first" => Ty::Opt(Box::new(Ty::Other)),
                 "unwrap" | "expect" => match self.ty(&m.receiver) { Ty::Opt(t) => *t, _ => Ty::Other },
                 name => self.call_ty.get(name).cloned().unwrap_or(Ty::Other),
@@ -261,6 +274,8 @@ impl Cx {
             Expr::Lit(l) => match &l.lit {
                 Lit::Int(i) => format!("{}", i.base10_digits()),
                 Lit::Bool(b) => format!("{}", b.value),
+                Lit::Char(c) if c.value().is_ascii() => format!("{}%N", c.value() as u32),
+                Lit::Str(t) if t.value().is_ascii() => format!("[{}]", t.value().bytes().map(|b| format!("{}%N", b)).collect::<Vec<_>>().join("; ")),
                 _ => return Err("literal kind".into()),
             },
             Expr::Path(p) => {
@@ -311,6 +326,13 @@ impl Cx {
             Expr::MethodCall(m) => {
                 let name = m.method.to_string();
                 if self.calls.contains_key(&name) { return Ok(None); }
+                if name == "or_else" {
+                    // r.or_else(|_| bail!(..)): only the error value changes, and errors carry no data here
+                    if m.args.len() != 1 { return Err("or_else arity".into()); }
+                    closure_is_harmless_bail(&m.args[0])?;
+                    return self.pure(&m.receiver);
+                }
+                if name == "into" && self.ty(&m.receiver) == Ty::Str { return self.pure(&m.receiver); }
                 if ["expect", "unwrap", "collect", "map", "try_into", "into", "for_each", "any", "flat_map"].contains(&name.as_str()) { return Ok(None); }
                 let recv = match self.pure(&m.receiver)? { Some(x) => x, None => return Ok(None) };
                 let mut args = vec![];
@@ -321,6 +343,16 @@ impl Cx {
                     ("cmp", 1) => format!("(i32_cmp {} {})", recv, args[0]),
                     ("clone", 0) | ("into_iter", 0) | ("iter", 0) | ("as_bytes", 0) | ("as_ref", 0) | ("to_owned", 0) | ("as_deref", 0) => recv,
                     ("len", 0) => format!("(Z.of_nat (length {}))", recv),
+                    ("is_empty", 0) => format!("(match {} with [] => true | _ => false end)", recv),
+                    ("split_once", 1) => format!("(str_split_once {} {})", args[0], recv),
+                    ("find", 1) => format!("(str_find {} {})", args[0], recv),
+                    ("into", 0) if self.ty(&m.receiver) == Ty::Str => recv,
+                    ("or_else", 1) => recv,
+                    ("parse", 0) => {
+                        let is_i32 = m.turbofish.as_ref().map_or(false, |t| t.args.iter().any(|a| matches!(a, GenericArgument::Type(Type::Path(p)) if path_str(&p.path) == "i32")));
+                        if !is_i32 { return Err("parse::<T>() for a T other than i32".into()); }
+                        format!("(parse_i32 {})", recv)
+                    }
                     ("first", 0) => format!("(hd_error {})", recv),
                     ("is_none", 0) => format!("(match {} with None => true | _ => false end)", recv),
                     ("is_some", 0) => format!("(match {} with None => false | _ => true end)", recv),
@@ -379,7 +411,7 @@ impl Cx {
                     format!("[{}]", xs.join("; "))
                 } else { return Ok(None); }
             }
-            Expr::If(_) | Expr::Match(_) | Expr::Block(_) | Expr::Return(_) | Expr::Try(_) | Expr::Assign(_) | Expr::ForLoop(_) | Expr::Closure(_) => return Ok(None),
+            Expr::If(_) | Expr::Match(_) | Expr::Block(_) | Expr::Return(_) | Expr::Try(_) | Expr::Assign(_) | Expr::ForLoop(_) | Expr::Closure(_) | Expr::Index(_) => return Ok(None),
             other => return Err(format!("expression kind at line {}", other.span().start().line)),
         }))
     }
@@ -398,6 +430,8 @@ impl Cx {
             BinOp::Ne(_) if intlike => format!("(negb ({} =? {}))", l, r),
             BinOp::Eq(_) if t == Ty::Bool => format!("(Bool.eqb {} {})", l, r),
             BinOp::Ne(_) if t == Ty::Bool => format!("(xorb {} {})", l, r),
+            BinOp::Eq(_) if t == Ty::Str => format!("(bytes_eqb {} {})", l, r),
+            BinOp::Ne(_) if t == Ty::Str => format!("(negb (bytes_eqb {} {}))", l, r),
             BinOp::Eq(_) if t == Ty::BType => format!("(btype_eqb {} {})", l, r),
             BinOp::Ne(_) if t == Ty::BType => format!("(negb (btype_eqb {} {}))", l, r),
             BinOp::Eq(_) if t == Ty::Side => format!("(side_eqb {} {})", l, r),
@@ -415,7 +449,7 @@ impl Cx {
                 let n = i.ident.to_string();
                 if let Some(c) = unit_ctor(&n) { (c.to_string(), false) }
                 else {
-                    if self.inline_k && self.lookup(&n).is_some() { return Err(format!("`{}` is bound twice in a function with mutable variables", n)); }
+                    if self.inline_k && self.lookup(&n).is_some() && !self.rebind_ok { return Err(format!("`{}` is bound twice in a function with mutable variables", n)); }
                     if i.mutability.is_some() { self.muts.push(n.clone()); }
                     self.env.push((n.clone(), hint.clone())); (ident(&n), true)
                 }
@@ -426,7 +460,10 @@ impl Cx {
             Pat::Tuple(t) => {
                 let mut xs = vec![]; let mut irr = true;
                 for (k, e) in t.elems.iter().enumerate() {
-                    let h = match &hint { Ty::Other => self.tuple_hint.get(k).cloned().unwrap_or(Ty::Other), h => h.clone() };
+                    let h = match &hint {
+                        Ty::Pair(a, b) => if k == 0 { (**a).clone() } else { (**b).clone() },
+                        Ty::Other => self.tuple_hint.get(k).cloned().unwrap_or(Ty::Other),
+                        h => h.clone() };
                     let (s, i) = self.pat(e, h)?; xs.push(s); irr &= i;
                 }
                 (format!("({})", xs.join(", ")), irr)
@@ -441,7 +478,11 @@ impl Cx {
                 (format!("({} {})", g, s), false)
             }
             Pat::Path(pp) => { let c = path_str(&pp.path); (unit_ctor(&c).ok_or(format!("pattern `{}`", c))?.to_string(), false) }
-            Pat::Lit(l) => match &l.lit { Lit::Int(i) => (i.base10_digits().to_string(), false), Lit::Bool(b) => (format!("{}", b.value), false), _ => return Err("literal pattern".into()) },
+            Pat::Lit(l) => match &l.lit {
+                Lit::Int(i) => (i.base10_digits().to_string(), false),
+                Lit::Bool(b) => (format!("{}", b.value), false),
+                Lit::Str(t) if t.value().is_empty() => ("[]".to_string(), false),
+                _ => return Err("literal pattern".into()) },
             _ => return Err(format!("pattern kind at line {}", p.span().start().line)),
         })
     }
@@ -541,6 +582,40 @@ impl Cx {
                 let cond = self.tr(&i.cond, &format!("(fun {} : bool => (if {} then {} else {}))", c, c, th, el))?;
                 Ok(Self::wrap(&jn, cond))
             }
+            Expr::Index(ix) if matches!(&*ix.index, Expr::Range(_)) => {
+                // &s[a..] / &s[..b] / &s[a..b] on a str: panics when out of range
+                let rg = match &*ix.index { Expr::Range(r) => r, _ => unreachable!() };
+                if self.ty(&ix.expr) != Ty::Str { return Err("slicing of something that is not a str".into()); }
+                if !matches!(rg.limits, RangeLimits::HalfOpen(_)) { return Err("inclusive slice".into()); }
+                let (sv, a, b) = (self.fresh("t"), self.fresh("t"), self.fresh("t"));
+                let body = match (&rg.start, &rg.end) {
+                    (Some(_), None) => format!("(bind (str_from {} {}) {})", sv, a, k),
+                    (None, Some(_)) => format!("(bind (str_to {} {}) {})", sv, b, k),
+                    (Some(_), Some(_)) => format!("(bind (str_between {} {} {}) {})", sv, a, b, k),
+                    (None, None) => format!("({} {})", k, sv),
+                };
+                let mut acc = body;
+                if let Some(e) = &rg.end { acc = self.tr(e, &format!("(fun {} => {})", b, acc))?; }
+                if let Some(e) = &rg.start { acc = self.tr(e, &format!("(fun {} => {})", a, acc))?; }
+                self.tr(&ix.expr, &format!("(fun {} => {})", sv, acc))
+            }
+            Expr::Assign(a) if matches!(&*a.left, Expr::Field(_)) => {
+                // b.field = e  on a `let mut` UserBounds
+                let f = match &*a.left { Expr::Field(f) => f, _ => unreachable!() };
+                let name = match &*f.base { Expr::Path(p) => path_str(&p.path), _ => return Err("assignment to a field of something that is not a variable".into()) };
+                if !self.muts.contains(&name) || self.lookup(&name) != Some(Ty::UB) { return Err("field assignment on something that is not a `let mut` UserBounds".into()); }
+                let fname = match &f.member { Member::Named(n) => n.to_string(), _ => return Err("tuple field".into()) };
+                let v = self.fresh("v");
+                let b = ident(&name);
+                let upd = match fname.as_str() {
+                    "l" => format!("(mkB {} (br {}) (blast {}) (bfb {}))", v, b, b, b),
+                    "r" => format!("(mkB (bl {}) {} (blast {}) (bfb {}))", b, v, b, b),
+                    "is_last" => format!("(mkB (bl {}) (br {}) {} (bfb {}))", b, b, v, b),
+                    "fallback_oob" => format!("(mkB (bl {}) (br {}) (blast {}) {})", b, b, b, v),
+                    _ => return Err(format!("field `{}`", fname)),
+                };
+                self.tr(&a.right, &format!("(fun {} => (let {} := {} in ({} tt)))", v, b, upd, k))
+            }
             Expr::Assign(a) => {
                 let name = match &*a.left { Expr::Path(p) => path_str(&p.path), _ => return Err("assignment to something that is not a variable".into()) };
                 if !self.muts.contains(&name) { return Err(format!("assignment to `{}`, which is not a `let mut` of this function", name)); }
@@ -600,7 +675,7 @@ impl Cx {
             }
             Expr::Macro(m) => {
                 let name = path_str(&m.mac.path);
-                if name == "bail" { Ok("(Ret None)".into()) } else { Err(format!("macro `{}!`", name)) }
+                if name == "bail" { bail_args_harmless(&m.mac)?; Ok("(Ret None)".into()) } else { Err(format!("macro `{}!`", name)) }
             }
             Expr::Call(c) => {
                 let f = match &*c.func { Expr::Path(p) => path_str(&p.path), _ => return Err("call of a non-path".into()) };
@@ -755,7 +830,11 @@ impl Cx {
                 let hint = match &l.pat { Pat::Type(_) => Ty::Other, _ => self.ty(&init.expr) };
                 let mark = self.env.len();
                 self.tuple_hint = vec![];
-                let (p, irrefutable) = self.pat(&l.pat, hint)?;
+                // `let mut s = s;` re-binds a name to its own value: harmless
+                self.rebind_ok = matches!((&l.pat, &*init.expr), (Pat::Ident(pi), Expr::Path(ep)) if ep.path.is_ident(&pi.ident));
+                let pr = self.pat(&l.pat, hint);
+                self.rebind_ok = false;
+                let (p, irrefutable) = pr?;
                 if !irrefutable { return Err("refutable let pattern".into()); }
                 let rest_s = self.stmts(rest, k)?;
                 // the initialiser sees the environment from before the binding (shadowing)
@@ -776,7 +855,7 @@ impl Cx {
             }
             Stmt::Macro(m) => {
                 let name = path_str(&m.mac.path);
-                if name == "bail" { Ok("(Ret None)".into()) } else { Err(format!("macro `{}!`", name)) }
+                if name == "bail" { bail_args_harmless(&m.mac)?; Ok("(Ret None)".into()) } else { Err(format!("macro `{}!`", name)) }
             }
             Stmt::Item(_) => Err("nested item".into()),
         }
@@ -853,6 +932,32 @@ fn result_of_self(t: &Type) -> bool {
     false
 }
 
+/// `bail!(fmt, args..)` drops its message in the translation; that is only sound when building the message
+/// cannot itself fail: the arguments must be plain variables, fields or `self`
+fn bail_args_harmless(mac: &Macro) -> R<()> {
+    let parser = punctuated::Punctuated::<Expr, Token![,]>::parse_terminated;
+    let args = mac.parse_body_with(parser).map_err(|e| format!("bail! arguments: {}", e))?;
+    fn simple(e: &Expr) -> bool {
+        match e {
+            Expr::Lit(_) | Expr::Path(_) => true,
+            Expr::Field(f) => simple(&f.base),
+            Expr::Reference(r) => simple(&r.expr),
+            Expr::Paren(p) => simple(&p.expr),
+            Expr::Unary(u) => matches!(u.op, UnOp::Deref(_)) && simple(&u.expr),
+            _ => false,
+        }
+    }
+    for a in &args { if !simple(a) { return Err("an error message built by an expression that may itself fail".into()); } }
+    Ok(())
+}
+
+fn closure_is_harmless_bail(e: &Expr) -> R<()> {
+    let clo = match e { Expr::Closure(c) => c, _ => return Err("or_else with something that is not a closure".into()) };
+    let mut body = &*clo.body;
+    if let Expr::Block(b) = body { if b.block.stmts.len() == 1 { if let Stmt::Expr(e, _) = &b.block.stmts[0] { body = e; } else if let Stmt::Macro(m) = &b.block.stmts[0] { return if path_str(&m.mac.path) == "bail" { bail_args_harmless(&m.mac) } else { Err("or_else closure".into()) }; } } }
+    match body { Expr::Macro(m) if path_str(&m.mac.path) == "bail" => bail_args_harmless(&m.mac), _ => Err("or_else with a closure that does more than bail!".into()) }
+}
+
 fn quote_type(t: &Type) -> String {
     match t { Type::Path(p) => path_str(&p.path), Type::Reference(r) => quote_type(&r.elem), _ => "UNKNOWN".into() }
 }
@@ -878,7 +983,7 @@ fn find_fn<'a>(file: &'a File, t: &Target) -> Option<(&'a Signature, &'a Block, 
 fn translate(t: &Target, sig: &Signature, block: &Block, ret_tys: &HashMap<String, Ty>) -> R<(String, Ty)> {
     let mut cx = Cx { env: vec![], fresh: 0, calls: t.calls.iter().map(|(a, b)| (a.to_string(), b.to_string())).collect(),
                       call_ty: t.calls.iter().filter_map(|(a, b)| ret_tys.get(*b).map(|ty| (a.to_string(), ty.clone()))).collect(),
-                      tuple_hint: vec![], ret_ty: String::new(), inline_k: false, muts: vec![], retk_stack: vec![] };
+                      tuple_hint: vec![], ret_ty: String::new(), inline_k: false, muts: vec![], rebind_ok: false, retk_stack: vec![] };
     cx.inline_k = quote::ToTokens::to_token_stream(block).to_string().contains("let mut ");
     let self_coq = match t.impl_self { Some("Side") => ("side", Ty::Side), Some("UserBounds") => ("ubound", Ty::UB), Some("UserBoundsList") => ("ublist", Ty::Other), Some("FastOpt") => ("gfopt", Ty::Other), Some("StreamOpt") => ("gsopt", Ty::Other), _ => ("UNKNOWN", Ty::Other) };
     let mut rty = Ty::Other;
